@@ -69,6 +69,7 @@ type fctx struct {
 	ntemp     int
 	tailParam string              // [seq] the parameter standing for a timed tail
 	nilErr    map[*ast.Ident]bool // [ext:T20] occurrences of nil that stand for the nil error
+	x07       *fstate07           // [ext:T07] parents, views (trans_ext07.go)
 }
 
 func (c *fctx) fresh(prefix string) string {
@@ -144,6 +145,7 @@ func (c *fctx) aliasSource(e ast.Expr, en *env) (string, bool) {
 }
 
 func (c *fctx) checkWritable(key string, en *env, at ast.Node) {
+	c.viewCheck07(key, en, at) // [ext:T07] results of append-style calls that may be views of this variable must be dead
 	if key == "" {
 		c.t.fail(at, "in-place write to a slice that is not a variable or a field")
 	}
@@ -308,6 +310,9 @@ func (c *fctx) expr(e ast.Expr, en *env, k func(string) string) string {
 			return k(v.name)
 		}
 		if s, ok := c.sentinel20(x, o); ok { // [ext:T20] package-level `var ErrX = errors.New("...")`, never assigned
+			return k(s)
+		}
+		if s, ok := c.table07(x, o); ok { // [ext:T07] package-level `var t = []byte{...}` that nothing writes
 			return k(s)
 		}
 		t.fail(x, "identifier %s (not a local variable, parameter or constant)", x.Name)
@@ -627,6 +632,9 @@ func (c *fctx) call(x *ast.CallExpr, en *env, k func([]string) string) string {
 	if s, ok := c.seqCall(x, en, k); ok { // [seq] sync/atomic, runtime.Gosched
 		return s
 	}
+	if s, ok := c.call07(x, en, k); ok { // [ext:T07] modelled standard-library functions, identity functions
+		return s
+	}
 	fn, recv := t.calleeOf(x)
 	if fn == nil {
 		t.fail(x, "call of %s (only functions and methods of the translated package, builtins and conversions)", nodeDesc(ast.Unparen(x.Fun)))
@@ -663,6 +671,7 @@ func (c *fctx) call(x *ast.CallExpr, en *env, k func([]string) string) string {
 			t.fail(x, "call of %s through a receiver expression that is not a variable", fi.goName)
 		}
 	}
+	var wb07 *writeBack07 // [ext:T07] slice arguments the callee writes in place come back and are stored
 	emit := func(rterm string, vs []string) string {
 		app := fi.name + fuel
 		if rv != nil {
@@ -688,6 +697,7 @@ func (c *fctx) call(x *ast.CallExpr, en *env, k func([]string) string) string {
 		for _, g := range t.ordered20(fi.gwrites) {
 			parts = append(parts, c.globalName20(g, en, x))
 		}
+		parts = append(parts, wb07.names()...) // [ext:T07]
 		if len(rs) > 0 {
 			parts = append(parts, tuple(rs))
 		}
@@ -698,7 +708,10 @@ func (c *fctx) call(x *ast.CallExpr, en *env, k func([]string) string) string {
 		if strings.HasPrefix(pat, "(") {
 			pat = "'" + pat
 		}
-		return fmt.Sprintf("do %s <- %s;;\n%s", pat, app, k(rs))
+		return fmt.Sprintf("do %s <- %s;;\n%s", pat, app, wb07.code(func() string { return k(rs) })) // [ext:T07] wb07.code
+	}
+	if len(fi.outs07) > 0 && !recvArg { // [ext:T07]
+		return c.argsOut07(fi, x, recv, en, &wb07, func(vs []string) string { return emit("", vs) })
 	}
 	if recvArg {
 		return c.expr(recv, en, func(r string) string {
